@@ -227,7 +227,26 @@ func HarnessC10_dangling() {
 	paths := []any{"zz", "t.zz", "t.x.zz.y", []any{"t", "zz"}, []any{"t.x"}, "o.x"}
 	p := paths[ndChoice(len(paths))]
 	var host any
-	switch ndChoice(4) {
+	good := func() any { return map[string]any{"$merge": "lst"} }
+	control := false
+	switch ndChoice(9) {
+	case 8:
+		// control: the same setting with good references only is accepted
+		host = []any{"local", good(), good()}
+		control = true
+	case 4:
+		// several list-form references in one list: the failing one first,
+		// in the middle, last; next to local entries
+		host = []any{map[string]any{"$merge": p}, good()}
+	case 5:
+		host = []any{"local", good(), map[string]any{"$merge": p}, good()}
+	case 6:
+		host = []any{good(), map[string]any{"$merge": p}}
+	case 7:
+		// the failing reference is a cross-document pattern (no match /
+		// several matches), followed by a good one
+		pat := map[string]any{"$match": map[string]any{"kind": []any{"nomatch", "dup"}[ndChoice(2)]}, "$path": "lst"}
+		host = []any{map[string]any{"$merge": pat}, good()}
 	case 0:
 		host = map[string]any{"$merge": p, "a": 1}
 	case 1:
@@ -241,9 +260,14 @@ func HarnessC10_dangling() {
 	default:
 		host = []any{map[string]any{"$merge": p}}
 	}
-	doc := map[string]any{"t": map[string]any{"x": T}, "h": host, "o": 1}
+	doc := map[string]any{"t": map[string]any{"x": T}, "h": host, "o": 1, "lst": []any{"g1", "g2"}}
 	vObserve("doc", doc)
-	_, err := c10EvalDocs([]any{doc})
+	_, err := c10EvalDocs([]any{doc, map[string]any{"kind": "dup", "lst": []any{1}}, map[string]any{"kind": "dup", "lst": []any{2}}})
+	if control {
+		vAssert("C10.dangling.control", err == nil)
+		vCover("dangling.control")
+		return
+	}
 	vAssert("C10.dangling", err != nil)
 	vCover("dangling.checked")
 }
